@@ -25,7 +25,7 @@ for c in cases:
         if b.returncode != 0:
             print(f"SELFTEST {c['name']}: DOES NOT COMPILE {b.stderr[:200]}"); bad += 1; continue
         e = dict(env); e['GVC_REPO'] = scratch
-        r = subprocess.run(['/verif/bin/gvc', 'verify', '-f', c['func'], '-t', '20', c['pkg']], env=e, capture_output=True, text=True)
+        r = subprocess.run([os.environ.get('GVC_BIN', '/verif/bin/gvc'), 'verify', '-f', c['func'], '-t', '20', c['pkg']], env=e, capture_output=True, text=True)
         failing = re.findall(r'^\s+(?:refuted|unknown|vacuous)\s+(\S.*?)\s+inst=', r.stdout, re.M)
         hit = [f for f in failing if re.search(c['expect'], f)]
         if hit:
